@@ -779,6 +779,10 @@ func (g *GcsEmu) finishCompose(baseUrl HttpBaseUrl, bucket string, dst composeOb
 	if len(srcs) > gcsMaxComposeSources {
 		return nil, fmtErrorfCode(http.StatusBadRequest, "too many sources")
 	}
+	if meta == nil {
+		// The request carried no destination resource: compose with default metadata.
+		meta = &storage.Object{}
+	}
 
 	// TODO: consider moving this to disk to handle very large compose operations
 	var data []byte
